@@ -1,5 +1,6 @@
 import SpoxModel.Lemmas.VPHistory
 import SpoxModel.Lemmas.VPFeed
+import SpoxModel.Lemmas.VPFeedFixed
 import SpoxModel.Props.C15
 import SpoxModel.Generated.VPOverrides
 import SpoxModel.Generated.VPSampling
@@ -833,6 +834,39 @@ theorem feed_roundtrip_tensor (sel : BackendSel) (e : DT) (s : Shape) (dt : DT) 
     exact hc2.2
   revert hc' he hobj
   cases dt <;> cases e <;> simp [PropValue.new, Payload.normalise, retype, PropValue.value, DT.isNumber, DT.norm, dtMatch, DT.isElem]
+
+
+/-- **converted_value_roundtrips_exactly** (full strength, both backends, every type of the class, any depth).
+    A value that `unwrap_feed` produced from ANY raw backend result `r0` and that passed `check` - i.e. every
+    value an operator or inlined model ever attaches - is an exact fixed point of the feed: handed to the next
+    backend call by `wrap_feed` and read back under the same type it is the SAME PropValue (declared types of
+    nested elements included). -/
+theorem converted_value_roundtrips_exactly (sel : BackendSel) (t : Ty) (r0 : RefVal) (pv : PropValue)
+    (hw : feedOk sel t = true) (h0 : unwrapFeed sel t r0 = .ok pv) (hc : check Variant.fixed pv = true) :
+    ∃ fed, wrapFeed sel pv.value = .ok fed ∧ unwrapFeed sel t fed = .ok pv := by
+  have hnew : ∃ v, pv = PropValue.new t v := by
+    cases sel with
+    | none => cases h0
+    | reference => exact fromRef_new t r0 pv h0
+    | onnxruntime => exact fromOrt_new t r0 pv h0
+  obtain ⟨v, rfl⟩ := hnew
+  have hc' : checkRec t (PropValue.new t v).value = true := by
+    simpa [check, Variant.fixed, PropValue.new, PropValue.type, PropValue.value] using hc
+  have hfix : retype t (PropValue.new t v).value = (PropValue.new t v).value := by
+    cases sel with
+    | none => cases h0
+    | reference => exact fromRef_fixed t r0 _ hw h0 hc'
+    | onnxruntime => exact fromOrt_fixed t r0 _ hw h0 hc'
+  cases sel with
+  | none => cases h0
+  | reference =>
+    refine ⟨_, rfl, ?_⟩
+    rw [feed_roundtrip .reference t v _ hw hc rfl, hfix]
+    rfl
+  | onnxruntime =>
+    refine ⟨_, rfl, ?_⟩
+    rw [feed_roundtrip .onnxruntime t v _ hw hc rfl, hfix]
+    rfl
 
 def feedBack (sel : BackendSel) (t : Ty) (p : Payload) : Except Exc PropValue :=
   match wrapFeed sel (PropValue.new t p).value with
